@@ -19,6 +19,50 @@ type overlapCase struct {
 	Tx    bool   `json:"transactional_store,omitempty"`
 }
 
+// overlapRevoke: C08 — a refresh request is validated (NewAccessRequest), then the owner revokes the presented
+// refresh token (or the access token issued alongside it), then the refresh request is completed
+// (NewAccessResponse). The revocation was accepted before the exchange took place, so the exchange is a later
+// use of a revoked token: it must not produce live tokens.
+func overlapRevoke(c overlapCase, res *WRes) {
+	w := NewWorld(Profile{JWTAccess: c.JWT, Tx: c.Tx})
+	auth := w.AuthFor("A")
+	first := w.Token(url.Values{"grant_type": {"password"}, "username": {"peter"}, "password": {"pw-peter"}, "scope": {"offline a"}}, auth)
+	rt, at := first.Str("refresh_token"), first.Str("access_token")
+	pend := w.TokenBegin(url.Values{"grant_type": {"refresh_token"}, "refresh_token": {rt}}, auth)
+	victim := rt
+	if c.Kind == "refresh-vs-revoke-at" {
+		victim = at
+	}
+	ro := w.Revoke(victim, "", auth)
+	out := w.TokenFinish(pend)
+	res.Trans += 3
+	res.class(fmt.Sprintf("%s:revoke=%s:finish=%s", c.Kind, ro.Class(), out.Class()))
+	res.distinct(fmt.Sprintf("%s|%v|%v|%s", c.Kind, c.JWT, c.Tx, out.Class()))
+	if ro.GoErr != "" {
+		res.note("sanity:revocation-refused:" + c.Kind)
+		return
+	}
+	if issued(out) {
+		live := 0
+		for _, t := range []string{out.Str("access_token"), out.Str("refresh_token")} {
+			if a, _ := w.Active(t); a {
+				live++
+			}
+		}
+		if live > 0 {
+			res.violate(Violation{Property: "C08", Fingerprint: "C08/overlapping-requests/refresh-completed-after-accepted-revocation/" + c.Kind,
+				What:   fmt.Sprintf("a refresh request validated before, and completed after, the owner's accepted revocation of the %s yielded %d live token(s) of the revoked grant", map[string]string{"refresh-vs-revoke": "presented refresh token", "refresh-vs-revoke-at": "access token issued alongside it"}[c.Kind], live),
+				Engine: "overlap", Case: c, Expected: "refusal (or tokens that are inactive)", Observed: out.JSON})
+		}
+	}
+	for _, t := range []string{rt, at} {
+		if a, _ := w.Active(t); a {
+			res.violate(Violation{Property: "C08", Fingerprint: "C08/overlapping-requests/revoked-token-active-after-overlapping-refresh/" + c.Kind,
+				What: "after the accepted revocation and the overlapping refresh, a token of the revoked pair is active again", Engine: "overlap", Case: c, Expected: "inactive", Observed: t})
+		}
+	}
+}
+
 var overlapProp = map[string]string{"code": "C01", "code-oidc": "C01", "code-pkce": "C01", "refresh": "C04", "refresh-oidc": "C04", "device": "C16", "device-contract": "C16", "bearer-jti": "C15", "client-assertion-jti": "C15"}
 
 func overlapOrders(n int) [][]int {
@@ -47,6 +91,10 @@ func overlapOrders(n int) [][]int {
 }
 
 func overlapRun(c overlapCase, res *WRes) {
+	if strings.HasPrefix(c.Kind, "refresh-vs-revoke") {
+		overlapRevoke(c, res)
+		return
+	}
 	prop := overlapProp[c.Kind]
 	p := Profile{JWTAccess: c.JWT, Tx: c.Tx, ContractDevice: c.Kind == "device-contract"}
 	w := NewWorld(p)
@@ -151,6 +199,21 @@ func init() {
 			return nil, err
 		}
 		res := &WRes{}
+		if strings.HasPrefix(j.Kind, "refresh-vs-revoke") {
+			if j.N != 2 {
+				return res, nil
+			}
+			c := overlapCase{Kind: j.Kind, N: 2, JWT: j.JWT, Tx: j.Tx}
+			n := len(res.Viol)
+			overlapRun(c, res)
+			res.Evals++
+			res.States++
+			res.Traces++
+			if len(res.Viol) == n {
+				res.sample(c)
+			}
+			return res, nil
+		}
 		for _, ord := range overlapOrders(j.N) {
 			c := overlapCase{Kind: j.Kind, N: j.N, Order: ord, JWT: j.JWT, Tx: j.Tx}
 			n := len(res.Viol)
